@@ -101,7 +101,9 @@ def run_jobs(modname, jobs, deadline, nproc, slice_s, verbose=False):
     are re-queued as separate tasks so that one big job spreads over all cores."""
     from concurrent.futures import ProcessPoolExecutor, wait, FIRST_COMPLETED
     results = [None] * len(jobs)
-    order = sorted(range(len(jobs)), key=lambda i: -jobs[i].get('weight', 1))
+    # cheap jobs first (every harness and label gets reached even if the budget runs out); the big ones at the end are
+    # spread over all workers by sub-tree hand-over
+    order = sorted(range(len(jobs)), key=lambda i: jobs[i].get('weight', 1))
     queue = [(i, None) for i in order]
     inflight = {}
     ctx = mp.get_context('fork')
